@@ -11,7 +11,7 @@ tie A:  the REAL ObjectHashMap (waitlists.rs compiled unmodified in harness crat
 tie B:  the REAL WaitLists::{block,enqueue,wakeup,wakeup_all} and DoraThread::{block,join,stop,…} (threads.rs,
         unmodified) on the scheduling shim, driven by a Rust transliteration of thread.dora's Mutex/Condition;
         every explored schedule's trace must be accepted by the Lean model (drv_c09), which also evaluates the
-        protocol invariants J/S/W/Q/E/WL on every model state it visits.  thread.dora itself is Dora: its Mutex /
+        (proved) protocol invariants J/S/W/Q/E/WL on every model state it visits.  thread.dora itself is Dora: its Mutex /
         Condition part is fingerprinted (corpus/C09/thread_dora.fingerprint).
 tie C:  small generated Dora programs (mutex counters, atomics, condition ping-pong, joins) compiled with both
         back ends and run (checks/c09_workloads.py).
@@ -367,9 +367,10 @@ def run(ctx):
                    "the linked list through (blocking, next) and the (head, tail) table entry are abstracted to lists; the "
                    "acceptor checks that the real code touches the model's tail / head"],
                theorems=po["theorems"],
-               not_proved=["no_lost_wakeup for the mutex (invariant J), queue/flag consistency (Q), asserts never fail: "
-                           "evaluated by drv_c09 on every model state reached while accepting real traces "
-                           "(DoraModel/Wait/MtxCheck.lean), not proved inductively; W (condition) and S (signal) are proved",
+               not_proved=["a global deadlock_free for programs whose critical sections terminate (needs a notion of program; "
+                           "the scheduler reports any deadlock of the real code on the explored schedules instead). All protocol "
+                           "invariants K, Q, J, S, W, join, asserts_hold are theorems; drv_c09 additionally evaluates them on every "
+                           "model state it visits (DoraModel/Wait/MtxCheck.lean)",
                            "hmap: remove on the never-used capacity-0 table panics (model and code agree; unreachable through WaitLists)"],
                evaluations=st["evaluations"],
                distinct_nontrivial=st["nontrivial"] + summary.get("nontrivial", 0),
